@@ -102,9 +102,9 @@ def run(ctx, rep):
                 if k[0] == 'c' and isinstance(k[1], tuple) and k[1][0] == 'float':
                     tgt = (k[1][1], k[1][2])
                 elif k[0] == 'c' and isinstance(k[1], tuple) and k[1][0] == 'item':
-                    m = re.search(r'\b(f32|f64)::(consts::)?(NEG_INFINITY|INFINITY)$', k[1][1])
+                    m = re.search(r'\b(f32|f64)::(consts::|<impl f(?:32|64)>::)?(NEG_INFINITY|INFINITY)$', k[1][1])
                     if m:
-                        tgt = ('-inf' if m.group(3) == 'NEG_INFINITY' else 'inf', m.group(1))
+                        tgt = ('-inf' if m.group(m.lastindex) == 'NEG_INFINITY' else 'inf', m.group(1))
             sig[up] = tgt
         sigs[ty] = sig
         ok = sig == {True: ('inf', ty), False: ('-inf', ty)}
